@@ -222,8 +222,41 @@ func constSet(v ssa.Value, depth int) []string {
 		if u != v {
 			return constSet(u, depth+1)
 		}
+	case *ssa.Extract:
+		// a result of a helper of the module: the constants its returns can carry
+		if call, ok := x.Tuple.(*ssa.Call); ok {
+			return calleeConstSet(call, x.Index, depth)
+		}
+	case *ssa.Call:
+		return calleeConstSet(x, 0, depth)
 	}
 	return []string{"?"}
+}
+
+func calleeConstSet(call *ssa.Call, idx int, depth int) []string {
+	g := call.Call.StaticCallee()
+	if g == nil || len(g.Blocks) == 0 || g.Pkg == nil || !strings.HasPrefix(g.Pkg.Pkg.Path(), modPath) {
+		return []string{"?"}
+	}
+	set := map[string]bool{}
+	for _, ret := range returnsOf(g) {
+		rv := returnValues(ret)
+		if idx >= len(rv) {
+			return []string{"?"}
+		}
+		for _, s := range constSet(rv[idx], depth+1) {
+			set[s] = true
+		}
+	}
+	var out []string
+	for s := range set {
+		out = append(out, s)
+	}
+	sort.Strings(out)
+	if len(out) == 0 {
+		return []string{"?"}
+	}
+	return out
 }
 
 // variadicConsts: constants of a variadic []T argument.
@@ -584,7 +617,7 @@ func runC07(c *Ctx) {
 	typeComparisonRule(c, r6)
 
 	// ---- R7 no shortcut past checks
-	r7 := c.Rule("R7", "branches of the loader's check functions are checks, loop control or specified dispatch", 40)
+	r7 := c.Rule("R7", "branches of the loader's check functions are checks, loop control or specified dispatch", 24)
 	c07NoShortcut(c, r7)
 
 	// ---- R8 nothing nil published
